@@ -364,3 +364,66 @@ func runStat(c StatCase, o *vk.Obs) string {
 	_, msg := evalStat(c, mids, ends)
 	return msg
 }
+
+// ---------------------------------------------------------------------------
+// Repeated runs through Reset on ONE counter (leg reuse).
+//
+// "Over repeated independent runs on any stream the mean of Count converges to
+// the true number of distinct values": a user who reuses a counter through
+// Reset performs such repeated runs.  The stream has D distinct values with D
+// chosen so that no value Len*2^k equals D; then a counter whose M runs all
+// return the same Count has a mean that is stuck away from D and can never
+// converge.  For independent runs far above capacity and buffer sizes >= 16
+// (Len takes at least 8 values) two runs agree with probability < 0.2, so the
+// probability that 24 runs all return the same value is below 1e-15: the check
+// cannot fire on a correct counter.
+
+// ReuseCase is one stream replayed M times on one counter with Reset between.
+type ReuseCase struct {
+	Size int `json:"size"`
+	D    int `json:"d"` // distinct values 0..D-1, each added once per run
+	M    int `json:"m"`
+}
+
+func runReuse(c ReuseCase, o *vk.Obs) string {
+	size, d, m := clampSize(c.Size), c.D, c.M
+	if m < 24 {
+		m = 24
+	}
+	if d < 20*size {
+		d = 20*size + 1
+	}
+	ctr := distinct.NewCounter[int](size)
+	counts := map[uint64]int{}
+	var first uint64
+	var sum float64
+	for run := 0; run < m; run++ {
+		ctr.Reset()
+		if ctr.Len() != 0 || ctr.Count() != 0 {
+			return fmt.Sprintf("after Reset (run %d) Len = %d, Count = %d, want 0", run, ctr.Len(), ctr.Count())
+		}
+		for v := 0; v < d; v++ {
+			ctr.Add(v)
+		}
+		got := ctr.Count()
+		if run == 0 {
+			first = got
+		}
+		counts[got]++
+		sum += float64(got)
+	}
+	representable := false
+	for k := uint64(1); k <= uint64(d); k <<= 1 {
+		if uint64(d)%k == 0 && uint64(d)/k <= uint64(size) {
+			representable = true
+		}
+	}
+	if len(counts) == 1 && !representable {
+		return fmt.Sprintf("size %d, stream of %d distinct values: %d runs on ONE counter separated by Reset all returned Count = %d; the mean over repeated runs is stuck at %d and cannot converge to %d (runs through Reset are not independent)", size, d, m, first, first, d)
+	}
+	if len(counts) > 1 {
+		o.NonTrivial()
+	}
+	o.ClassIf(len(counts) >= 5, "runs_gave>=5_distinct_counts")
+	return ""
+}
